@@ -161,9 +161,14 @@ RECURSIVE EvalE(_, _), ExecS(_, _), ExecB(_, _), While(_, _), ForEach(_, _, _, _
 \* evaluation of an expression also threads the model (an invoked function may change it): [v, s]
 EV(v, S) == [v |-> v, s |-> S]
 
+\* (TLC integers are 32 bits wide: a product is only computed when it stays within the bound)
+Abs(n) == IF n < 0 THEN 0 - n ELSE n
+MulVal(a, b) == IF a = 0 \/ b = 0 THEN VInt(0)
+                ELSE IF Abs(a) > Bound \div Abs(b) THEN OOD ELSE ChkInt(a * b)
 BinVal(op, l, r) ==
-    CASE op \in {"+", "-", "*"} /\ l.k = "int" /\ r.k = "int" ->
-            ChkInt(CASE op = "+" -> l.v + r.v [] op = "-" -> l.v - r.v [] op = "*" -> l.v * r.v)
+    CASE op = "*" /\ l.k = "int" /\ r.k = "int" -> MulVal(l.v, r.v)
+      [] op \in {"+", "-"} /\ l.k = "int" /\ r.k = "int" ->
+            ChkInt(CASE op = "+" -> l.v + r.v [] op = "-" -> l.v - r.v)
       [] op = "+" /\ l.k = "str" /\ r.k = "str" -> VStr(l.v \o r.v)
       [] op = "%" /\ l.k = "int" /\ r.k = "int" -> IF r.v > 0 /\ l.v >= 0 THEN VInt(l.v % r.v) ELSE OOD
       [] op \in {"<", "<=", ">", ">="} /\ l.k = "int" /\ r.k = "int" ->
